@@ -7,6 +7,7 @@ import TsrunVerif.Driver.Pos
 import TsrunVerif.Driver.Emit
 import TsrunVerif.Driver.Erase
 import TsrunVerif.Driver.Parse
+import TsrunVerif.Driver.Ffi
 import TsrunVerif.Driver.Mod
 import TsrunVerif.Driver.Orders
 import TsrunVerif.Driver.Roots
@@ -30,6 +31,7 @@ def main (args : List String) : IO UInt32 := do
   | ["jsonext"] => loop stdin stdout TsrunVerif.Driver.jsonExtLine; return 0
   | ["json"] => loop stdin stdout TsrunVerif.Driver.jsonLine; return 0
   | ["regalloc"] => loop stdin stdout TsrunVerif.Driver.raLine; return 0
+  | ["ffi"] => loop stdin stdout TsrunVerif.Driver.ffiLine; return 0
   | ["parse"] => loop stdin stdout TsrunVerif.Driver.parseLine; return 0
   | ["erase"] => loop stdin stdout TsrunVerif.Driver.eraseLine; return 0
   | ["emit"] => loop stdin stdout TsrunVerif.Driver.emitLine; return 0
